@@ -120,6 +120,7 @@ type FlowFn struct {
 	defers     []*ast.DeferStmt
 	deferIdx   map[*ast.DeferStmt]int
 	lits       map[*ast.FuncLit]*FlowFn
+	addrArgs   map[*ast.UnaryExpr]bool // &x used directly as a call argument
 }
 
 func noReturnCall(info *types.Info, call *ast.CallExpr) bool {
@@ -149,7 +150,7 @@ func (p *Prog) FlowOf(fi *FuncInfo) *FlowFn {
 func newFlowFn(p *Prog, pkg *packages.Package, name string, node ast.Node, typ *ast.FuncType, recv *ast.FieldList, body *ast.BlockStmt, outer *FlowFn) *FlowFn {
 	f := &FlowFn{P: p, Pkg: pkg, Info: pkg.TypesInfo, Name: name, Node: node, Type: typ, Recv: recv, Body: body, Outer: outer,
 		commStmts: map[ast.Node]*ast.CommClause{}, caseSwitch: map[*ast.CaseClause]ast.Stmt{}, untracked: map[types.Object]bool{},
-		deferIdx: map[*ast.DeferStmt]int{}, lits: map[*ast.FuncLit]*FlowFn{}}
+		deferIdx: map[*ast.DeferStmt]int{}, lits: map[*ast.FuncLit]*FlowFn{}, addrArgs: map[*ast.UnaryExpr]bool{}}
 	info := f.Info
 	f.G = cfg.New(body, func(c *ast.CallExpr) bool { return !noReturnCall(info, c) })
 	deferredLits := map[*ast.FuncLit]bool{}
@@ -193,8 +194,19 @@ func newFlowFn(p *Prog, pkg *packages.Package, name string, node ast.Node, typ *
 					f.deferIdx[m] = len(f.defers)
 					f.defers = append(f.defers, m)
 				}
+			case *ast.CallExpr:
+				// &x passed as a call argument: the callee may write x during
+				// the call; x is invalidated at that call instead of being
+				// untracked for good.
+				for _, a := range m.Args {
+					if u, ok := ast.Unparen(a).(*ast.UnaryExpr); ok && u.Op == token.AND {
+						if o := identObj(info, u.X); o != nil && !inLit {
+							f.addrArgs[u] = true
+						}
+					}
+				}
 			case *ast.UnaryExpr:
-				if m.Op == token.AND {
+				if m.Op == token.AND && !f.addrArgs[m] {
 					if o := identObj(info, m.X); o != nil {
 						f.untracked[o] = true
 					}
@@ -235,6 +247,9 @@ func (f *FlowFn) Lit(l *ast.FuncLit) *FlowFn {
 	g := newFlowFn(f.P, f.Pkg, fmt.Sprintf("%s$lit%d", f.Name, n), l, l.Type, nil, l.Body, f)
 	// A literal shares the untracked set of its parent (captured variables).
 	for o := range f.untracked {
+		if o.Pos() >= l.Pos() && o.Pos() < l.End() {
+			continue // the literal's own locals are judged by its own scan
+		}
 		g.untracked[o] = true
 	}
 	f.lits[l] = g
@@ -407,6 +422,30 @@ func dedupe(in []St) []St {
 func (x *Exec) block(b *cfg.Block, s St) {
 	x.curBlock, x.curKey = b.Index, s.Key()
 	states := []St{s}
+	if b.Kind == cfg.KindSelectCaseBody {
+		if cc, ok := b.Stmt.(*ast.CommClause); ok && cc.Comm != nil {
+			if _, hoisted := x.Fn.commStmts[cc.Comm]; hoisted {
+				x.InComm = cc
+				states = x.I.Node(x, cc.Comm, s)
+				x.InComm = nil
+			}
+		}
+	}
+	if b.Kind == cfg.KindRangeBody {
+		// the key/value variables are (re)assigned on every iteration
+		if rs, ok := b.Stmt.(*ast.RangeStmt); ok && (rs.Key != nil || rs.Value != nil) {
+			as := &ast.AssignStmt{Tok: token.DEFINE, TokPos: rs.For, Rhs: []ast.Expr{&ast.UnaryExpr{Op: token.RANGE, X: rs.X, OpPos: rs.For}}}
+			if rs.Key != nil {
+				as.Lhs = append(as.Lhs, rs.Key)
+			} else {
+				as.Lhs = append(as.Lhs, &ast.Ident{Name: "_", NamePos: rs.For})
+			}
+			if rs.Value != nil {
+				as.Lhs = append(as.Lhs, rs.Value)
+			}
+			states = x.I.Node(x, as, s)
+		}
+	}
 	nodes := b.Nodes
 	var cond ast.Expr
 	hasCond := false
@@ -499,15 +538,23 @@ func (x *Exec) node(n ast.Node, s St) []St {
 	if d, ok := n.(*ast.DeferStmt); ok {
 		if idx, ok := x.Fn.deferIdx[d]; ok {
 			cur := s.Get("defers")
+			// a defer statement inside a loop is recorded once (finite state)
+			for _, d := range strings.Split(cur, ",") {
+				if d == fmt.Sprint(idx) {
+					return []St{s}
+				}
+			}
 			if cur != "" {
 				cur += ","
 			}
 			return []St{s.Set("defers", cur+fmt.Sprint(idx))}
 		}
 	}
-	if cc, ok := x.Fn.commStmts[n]; ok {
-		x.InComm = cc
-		defer func() { x.InComm = nil }()
+	if _, ok := x.Fn.commStmts[n]; ok {
+		// go/cfg hoists the communication statements of a select in front of
+		// the branching; the communication of a clause happens only if that
+		// clause is chosen, so it is applied on entry to the clause body.
+		return []St{s}
 	}
 	return x.I.Node(x, n, s)
 }
